@@ -121,6 +121,11 @@ class ExpectationMaximization(ParameterEstimator):
         n_counts = (
             self.data.groupby(list(self.data.columns), observed=True).size().to_dict()
         )
+        # With a single data column the group keys are scalars; rows are looked up as tuples.
+        n_counts = {
+            (key if isinstance(key, tuple) else (key,)): value
+            for key, value in n_counts.items()
+        }
 
         cache = Parallel(n_jobs=n_jobs)(
             delayed(self._parallel_compute_weights)(
